@@ -407,7 +407,7 @@ class ValueWrapper(Term):
         if isinstance(value, uuid.UUID):
             return cls.get_formatted_value(str(value), ctx)
         if isinstance(value, (dict, list)):
-            return format_quotes(json.dumps(value), quote_char)
+            return format_quotes(json.dumps(value).replace(quote_char, quote_char * 2), quote_char)
         if value is None:
             return "null"
         return str(value)
